@@ -869,6 +869,7 @@ class NonMementoFunctionHashRule(HashRule):
             symbol=symbol,
             first_level=first_level,
         )
+        self.node_name = name
         self.src_fn = obj
         self.resolver = resolver
 
@@ -908,8 +909,9 @@ class NonMementoFunctionHashRule(HashRule):
         src_fn = self.src_fn
 
         for dep in list_dotted_names(src_fn):
-            # noinspection PyUnresolvedReferences
-            symbol_parent = src_fn.__module__ + ":" + src_fn.__qualname__
+            # The rules of this function's dependencies name it the way its own key does, so
+            # that the dependency graph can link them to it
+            symbol_parent = self.node_name
             HashRule._visit_dependency(
                 result=result,
                 src_fn=src_fn,
